@@ -132,7 +132,12 @@ class _OrbitCorrectionService(_DynamicsServiceBase):
             options = self.correction_options
         
         # Cache key based on options
-        cache_key = self.make_key("correct", tuple(sorted(options.to_dict().items())))
+        cache_key = self.make_key(
+            "correct",
+            self.domain_obj.initial_state,
+            self.domain_obj.period,
+            tuple(sorted(options.to_dict().items())),
+        )
 
         def _factory() -> tuple[np.ndarray, float, OrbitCorrectionDomainPayload, "CorrectionResult"]:
             result = self.corrector.correct(self.domain_obj, options=options)
@@ -275,7 +280,12 @@ class _OrbitContinuationService(_DynamicsServiceBase):
             options = self.continuation_options
         
         # Cache key based on options
-        cache_key = self.make_key("generate", tuple(sorted(options.to_dict().items())))
+        cache_key = self.make_key(
+            "generate",
+            self.domain_obj.initial_state,
+            self.domain_obj.period,
+            tuple(sorted(options.to_dict().items())),
+        )
 
         def _factory() -> ContinuationDomainPayload:
             result = self.generator.generate(self.domain_obj, options)
